@@ -27,7 +27,8 @@ type Obligation struct {
 	Goal      *Term
 	Pos       string
 	Desc      string
-	ExpectSat bool // vacuity / cover: the query (PC && Goal) must be satisfiable
+	Alloc     *Term // allocation counter at the point of the obligation
+	ExpectSat bool  // vacuity / cover: the query (PC && Goal) must be satisfiable
 	// results
 	Verdict string
 	Solver  string
@@ -107,10 +108,31 @@ func (fc *FuncCtx) addObl(fr *Frame, st *State, kind, text string, goal *Term, p
 	name := fc.oblName(fr, kind, text)
 	if goal == True {
 		// trivially discharged by the generator's own simplifier: still counted
-		fc.obls = append(fc.obls, &Obligation{Name: name, Kind: kind, Func: fr.prefix, PC: st.pc, Goal: goal, Pos: fc.p.pos(pos), Desc: desc, Verdict: "unsat", Solver: "simplifier", Props: fc.propsFor()})
+		fc.obls = append(fc.obls, &Obligation{Name: name, Kind: kind, Func: fr.prefix, PC: st.pc, Goal: goal, Pos: fc.p.pos(pos), Desc: desc, Verdict: "unsat", Solver: "simplifier", Props: fc.propsFor(), Alloc: st.alloc})
 		return
 	}
-	fc.obls = append(fc.obls, &Obligation{Name: name, Kind: kind, Func: fr.prefix, Hyps: fc.axioms, PC: st.pc, Goal: goal, Pos: fc.p.pos(pos), Desc: desc, Props: fc.propsFor()})
+	fc.obls = append(fc.obls, &Obligation{Name: name, Kind: kind, Func: fr.prefix, Hyps: fc.axioms, PC: st.pc, Goal: goal, Pos: fc.p.pos(pos), Desc: desc, Props: fc.propsFor(), Alloc: st.alloc})
+}
+
+// addSplit adds one obligation per top-level conjunct of goal (after expansion
+// of spec functions), so that a failure names the conjunct that fails.
+func (fc *FuncCtx) addSplit(fr *Frame, st *State, kind, text string, goal *Term, pos token.Pos, desc string) {
+	if goal.Op != "and" || len(goal.Args) < 2 {
+		fc.addObl(fr, st, kind, text, goal, pos, desc)
+		return
+	}
+	n := len(goal.Args)
+	for i, g := range goal.Args {
+		fc.addObl(fr, st, kind, fmt.Sprintf("%s [%d/%d]", text, i+1, n), g, pos, desc+" (conjunct "+shortTerm(g)+")")
+	}
+}
+
+func shortTerm(t *Term) string {
+	s := t.String()
+	if len(s) > 200 {
+		s = s[:200] + "..."
+	}
+	return s
 }
 
 func (fc *FuncCtx) propsFor() []string {
@@ -189,7 +211,7 @@ func VerifyFunction(p *Program, fn *ssa.Function, c *Contract) (fc *FuncCtx, err
 		return fc, err
 	}
 	// vacuity guard on the precondition
-	fc.obls = append(fc.obls, &Obligation{Name: fr.prefix + "#vacuity:requires#1", Kind: "vacuity", Func: fr.prefix, Hyps: fc.axioms, PC: st.pc, Goal: True, ExpectSat: true, Pos: p.pos(fn.Pos()), Desc: "precondition is satisfiable", Props: c.Props})
+	fc.obls = append(fc.obls, &Obligation{Name: fr.prefix + "#vacuity:requires#1", Kind: "vacuity", Func: fr.prefix, Hyps: fc.axioms, PC: st.pc, Goal: True, ExpectSat: true, Pos: p.pos(fn.Pos()), Desc: "precondition is satisfiable", Props: c.Props, Alloc: st.alloc})
 	fr.onReturn = func(rst *State, vals []Val) { fc.checkPost(fr, rst, vals) }
 	ret, _ := fc.run(fr, st, args, fvs)
 	if ret == nil || ret.dead {
@@ -197,7 +219,7 @@ func VerifyFunction(p *Program, fn *ssa.Function, c *Contract) (fc *FuncCtx, err
 		return fc, nil
 	}
 	// smoke: some exit must be reachable
-	fc.obls = append(fc.obls, &Obligation{Name: fr.prefix + "#vacuity:return#1", Kind: "vacuity", Func: fr.prefix, Hyps: fc.axioms, PC: ret.pc, Goal: True, ExpectSat: true, Pos: fc.p.pos(fr.fn.Pos()), Desc: "some return is reachable", Props: c.Props})
+	fc.obls = append(fc.obls, &Obligation{Name: fr.prefix + "#vacuity:return#1", Kind: "vacuity", Func: fr.prefix, Hyps: fc.axioms, PC: ret.pc, Goal: True, ExpectSat: true, Pos: fc.p.pos(fr.fn.Pos()), Desc: "some return is reachable", Props: c.Props, Alloc: ret.alloc})
 	return fc, nil
 }
 
@@ -331,7 +353,7 @@ func (fc *FuncCtx) checkPost(fr *Frame, ret *State, vals []Val) {
 			panic(elabErr{fmt.Sprintf("%s:%d: ensures: %v", c.File, en.Line, e)})
 		}
 		fc.curTags = en.Tags
-		fc.addObl(fr, ret, "post", en.Text, t, fr.fn.Pos(), "postcondition")
+		fc.addSplit(fr, ret, "post", en.Text, t, fr.fn.Pos(), "postcondition")
 		fc.curTags = nil
 	}
 	// frame
@@ -985,7 +1007,7 @@ func (fc *FuncCtx) enterLoop(fr *Frame, li *loopInfo, st *State) *State {
 	invs := fc.loopInvariants(fr, li, st, mi, cells)
 	for _, iv := range invs {
 		t := iv.at(st)
-		fc.addObl(fr, st, "inv-entry", loopName+":"+iv.text, t, pos, "loop invariant holds on entry")
+		fc.addSplit(fr, st, "inv-entry", loopName+":"+iv.text, t, pos, "loop invariant holds on entry")
 	}
 	// 2. havoc
 	h := st.clone()
@@ -1020,6 +1042,7 @@ func (fc *FuncCtx) enterLoop(fr *Frame, li *loopInfo, st *State) *State {
 			continue
 		}
 		h.heap[k] = Fresh(heapVarName(k)+"."+loopName, heapSort(k, fc.p))
+		fc.p.noteHeapVar(h.heap[k], k, h.alloc)
 	}
 	for k := range h.ghost {
 		if mi.heaps["ghost:"+k] || mi.heaps["ghost:chan"] {
@@ -1140,7 +1163,7 @@ func (fc *FuncCtx) backEdge(fr *Frame, li *loopInfo, st *State, pos token.Pos) {
 	cells, mi := fc.modOfBlocks(fr, li.blocks)
 	invs := fc.loopInvariants(fr, li, li.entry, mi, cells)
 	for _, iv := range invs {
-		fc.addObl(fr, st, "inv-pres", loopName+":"+iv.text, iv.at(st), pos, "loop invariant is preserved by the body")
+		fc.addSplit(fr, st, "inv-pres", loopName+":"+iv.text, iv.at(st), pos, "loop invariant is preserved by the body")
 	}
 	if li.variant != nil {
 		env := fc.envFor(fr, st, nil, true)
